@@ -3,7 +3,9 @@
 
 use crate::gen::*;
 use crate::inst::TKey;
+use crate::e7::*;
 use crate::interp::*;
+use crate::multi::*;
 use crate::ops::*;
 use crate::runner::*;
 use serde_json::{json, Map, Value};
@@ -152,7 +154,16 @@ pub fn rule_for(prop: Prop) -> &'static str {
     }
 }
 
-pub fn finish_e1(ctx: &Ctx, prop: Prop, acc: Acc, found: Option<(usize, Case, Violation)>, out: &mut Outcome, engine: &str) {
+pub fn finish<T: serde::Serialize + Clone>(
+    ctx: &Ctx,
+    rule: &str,
+    acc: Acc,
+    found: Option<(usize, T, Violation)>,
+    out: &mut Outcome,
+    engine: &str,
+    exec: &dyn Fn(&T) -> CaseReport,
+    shrink: &dyn Fn(&T, &dyn Fn(&T) -> bool) -> T,
+) {
     let cov = &mut out.coverage;
     let add = |cov: &mut Map<String, Value>, k: &str, v: u64| {
         let cur = cov.get(k).and_then(|x| x.as_u64()).unwrap_or(0);
@@ -164,7 +175,7 @@ pub fn finish_e1(ctx: &Ctx, prop: Prop, acc: Acc, found: Option<(usize, Case, Vi
     add(cov, "aborted_by_panic", acc.aborted_by_panic);
     add(cov, "unbuildable_configs", acc.unbuildable);
     if !cov.contains_key("rule") {
-        cov.insert("rule".into(), json!(rule_for(prop)));
+        cov.insert("rule".into(), json!(rule));
     }
     let mut samples = cov.get("samples").and_then(|s| s.as_array().cloned()).unwrap_or_default();
     samples.extend(acc.samples.iter().cloned());
@@ -178,7 +189,7 @@ pub fn finish_e1(ctx: &Ctx, prop: Prop, acc: Acc, found: Option<(usize, Case, Vi
     }
     for (k, v) in &acc.extra {
         cov.insert(k.clone(), json!(v));
-        if k.starts_with("unreproducible_failure") || k.starts_with("proptest_abort") {
+        if k.starts_with("proptest_abort") {
             out.inconclusive = Some(k.clone());
         }
     }
@@ -190,16 +201,16 @@ pub fn finish_e1(ctx: &Ctx, prop: Prop, acc: Acc, found: Option<(usize, Case, Vi
         }
         add(&mut out.coverage, "known_finding_hits", *n);
     }
-    if let Some((_w, case, v)) = found {
+    if let Some((_w, t, v)) = found {
         // minimise under the property's own predicate, then write the replay
         let known = &ctx.known;
         let pid = ctx.id.clone();
-        let fails = |c: &Case| -> bool {
-            let r = exec_case(c, prop);
+        let fails = |c: &T| -> bool {
+            let r = exec(c);
             matches!(r.violation, Some(ref v) if known.matches(&pid, &v.sig).is_none())
         };
-        let min = minimize(&case, &fails);
-        let rep = exec_case(&min, prop);
+        let min = if fails(&t) { shrink(&t, &fails) } else { t.clone() };
+        let rep = exec(&min);
         let v = rep.violation.unwrap_or(v);
         let path = write_replay(&ctx.replay_dir(), &ctx.id, engine, serde_json::to_value(&min).unwrap(), &v);
         out.violations.push((path, v.msg));
@@ -212,7 +223,100 @@ pub fn check_e1(ctx: &Ctx, prop: Prop, out: &mut Outcome, q: u32, t: u32) {
     let strat = move || case_strategy(&profile);
     let exec = move |c: &Case| exec_case(c, prop);
     let (acc, found) = run_engine(&strat, &exec, &|c: &Case| c.clone(), &ctx.id, ctx.seed, prop as u64, ctx.workers, ctx.cases(q, t), &ctx.known);
-    finish_e1(ctx, prop, acc, found, out, "e1");
+    finish(ctx, rule_for(prop), acc, found, out, "e1", &exec, &|c, f| minimize(c, f));
+}
+
+pub fn exec_c13(t: &C13Case) -> CaseReport {
+    match t.case.keys {
+        KeyMode::Tracked => run_c13::<TKey>(t),
+        KeyMode::Str => run_c13::<String>(t),
+    }
+}
+pub fn exec_c16(t: &C16Case) -> CaseReport {
+    match t.case.keys {
+        KeyMode::Tracked => run_c16::<TKey>(t),
+        KeyMode::Str => run_c16::<String>(t),
+    }
+}
+pub fn exec_c17(t: &Case) -> CaseReport {
+    match t.keys {
+        KeyMode::Tracked => run_c17::<TKey>(t),
+        KeyMode::Str => run_c17::<String>(t),
+    }
+}
+
+pub fn check_c13(ctx: &Ctx, out: &mut Outcome, q: u32, t: u32) {
+    let mut profile = Profile::base(ctx.tier == Tier::Thorough);
+    profile.str_pct = 10;
+    profile.w_clone = 0;
+    profile.hashers = ALL_HASHERS.to_vec();
+    let strat = move || c13_strategy(&profile);
+    let (acc, found) = run_engine(&strat, &exec_c13, &|c: &C13Case| c.case.clone(), &ctx.id, ctx.seed, 13, ctx.workers, ctx.cases(q, t), &ctx.known);
+    let rule = "generated history H plus generated insertion points and read-only calls (peek, peek_mut without write, contains, len/cap/is_empty, peek_lru/peek_mru variants, get_mru, every iterator family fully or partially consumed, per-segment accessors, Debug); H runs on A, H with insertions on B; non-trivial = an inserted call targeted a resident non-MRU entry and a later op evicted something; distinct by case hash";
+    let shrink = |t: &C13Case, f: &dyn Fn(&C13Case) -> bool| -> C13Case {
+        let mut cur = t.clone();
+        // drop inserted calls one by one, then minimise the history
+        let mut i = 0;
+        while i < cur.ins.len() {
+            let mut c = cur.clone();
+            c.ins.remove(i);
+            if f(&c) {
+                cur = c;
+            } else {
+                i += 1;
+            }
+        }
+        let ins = cur.ins.clone();
+        let case = minimize(&cur.case, &|c: &Case| f(&C13Case { case: c.clone(), ins: ins.clone() }));
+        C13Case { case, ins }
+    };
+    finish(ctx, rule, acc, found, out, "c13", &exec_c13, &shrink);
+}
+
+pub fn check_c16(ctx: &Ctx, out: &mut Outcome, q: u32, t: u32) {
+    let mut profile = Profile::base(ctx.tier == Tier::Thorough).only(&[Kind::Lru, Kind::LruCb, Kind::LruCbD, Kind::Seg, Kind::Wtl]);
+    profile.hashers = ALL_HASHERS.to_vec();
+    profile.w_clone = 1;
+    profile.max_ops = if ctx.tier == Tier::Thorough { 80 } else { 30 };
+    let strat = move || c16_strategy(&profile);
+    let (acc, found) = run_engine(&strat, &exec_c16, &|c: &C16Case| c.case.clone(), &ctx.id, ctx.seed, 16, ctx.workers, ctx.cases(q, t), &ctx.known);
+    let rule = "generated prefix -> clone -> compare (capacity, every segment's order and values, estimator dump) -> lock-step suffix on both -> divergent suffix on / drop of one of them while the other is observed, over RawLRU (with and without callback), SegmentedCache, WTinyLFUCache and all hashers incl. RandomState; non-trivial = the clone was taken with >= 3 entries in non-insertion order and the suffix evicted; distinct by case hash";
+    let shrink = |t: &C16Case, f: &dyn Fn(&C16Case) -> bool| -> C16Case {
+        let mut cur = t.clone();
+        for which in 0..2 {
+            let mut i = 0;
+            loop {
+                let mut c = cur.clone();
+                let v = if which == 0 { &mut c.lock } else { &mut c.diverge };
+                if i >= v.len() {
+                    break;
+                }
+                v.remove(i);
+                if f(&c) {
+                    cur = c;
+                } else {
+                    i += 1;
+                }
+            }
+        }
+        let rest = cur.clone();
+        let case = minimize(&cur.case, &|c: &Case| f(&C16Case { case: c.clone(), ..rest.clone() }));
+        C16Case { case, ..rest }
+    };
+    finish(ctx, rule, acc, found, out, "c16", &exec_c16, &shrink);
+}
+
+pub fn check_c17(ctx: &Ctx, out: &mut Outcome, q: u32, t: u32) {
+    let mut profile = Profile::base(ctx.tier == Tier::Thorough);
+    profile.key_hashers = vec![KhSpec::Ident, KhSpec::Const, KhSpec::Fnv(3)];
+    profile.w_clone = 4;
+    profile.w_resize = 4;
+    profile.w_purge = 2;
+    profile.kinds.retain(|(_, k)| *k != Kind::LruCbD);
+    let strat = move || case_strategy(&profile);
+    let (acc, found) = run_engine(&strat, &exec_c17, &|c: &Case| c.clone(), &ctx.id, ctx.seed, 17, ctx.workers, ctx.cases(q, t), &ctx.known);
+    let rule = "the same generated history (incl. clone, purge, resize) on six instances whose inner lists use different BuildHashers (two FNV seeds, identity, constant-zero, two differently seeded RandomStates, mixed per list); every result and state view must be identical across instances (W-TinyLFU: same key hasher and pinned sketch seed, so the verdicts are the same); non-trivial = at least one eviction and, for cloneable kinds, a clone of >= 3 entries; distinct by case hash";
+    finish(ctx, rule, acc, found, out, "c17", &exec_c17, &|c, f| minimize(c, f));
 }
 
 /// replay a case file written by a check
@@ -222,4 +326,82 @@ pub fn replay_file(path: &str) -> Result<Option<Violation>, String> {
     let prop = v["property"].as_str().unwrap_or("");
     let engine = v["engine"].as_str().unwrap_or("e1");
     crate::registry::replay(prop, engine, &v["case"])
+}
+
+pub fn check_tinylfu(ctx: &Ctx, prop: E7Prop, out: &mut Outcome, q: u32, t: u32, rule: &str) {
+    let th = ctx.tier == Tier::Thorough;
+    let strat = move || tcase_strategy(th);
+    let exec = move |c: &TCase| run_tinylfu(c, prop);
+    let dummy = |_c: &TCase| Case { kind: Kind::Wtl, cfg: Cfg::simple(1), keys: KeyMode::Tracked, alphabet: 0, ops: vec![] };
+    let hash_case = |c: &TCase| {
+        let mut d = dummy(c);
+        // distinctness: fold the serialised component case into the alphabet/cfg fields
+        let h = fnv64(serde_json::to_string(c).unwrap_or_default().as_bytes());
+        d.cfg.sketch_seed = Some(h);
+        d
+    };
+    let (acc, found) = run_engine(&strat, &exec, &hash_case, &ctx.id, ctx.seed, 0x711 + prop as u64, ctx.workers, ctx.cases(q, t), &ctx.known);
+    let shrink = |c: &TCase, f: &dyn Fn(&TCase) -> bool| -> TCase {
+        let mut cur = c.clone();
+        let mut i = 0;
+        while i < cur.ops.len() {
+            let mut x = cur.clone();
+            x.ops.remove(i);
+            if f(&x) {
+                cur = x;
+            } else {
+                i += 1;
+            }
+        }
+        cur
+    };
+    let mut acc = acc;
+    // samples: the component cases themselves
+    acc.samples.clear();
+    finish(ctx, rule, acc, found, out, "tinylfu", &exec, &shrink);
+    let th2 = ctx.tier == Tier::Thorough;
+    push_component_samples(out, &tcase_strategy(th2), ctx.seed);
+}
+
+pub fn check_sampled(ctx: &Ctx, prop: E7Prop, out: &mut Outcome, q: u32, t: u32, rule: &str) {
+    let th = ctx.tier == Tier::Thorough;
+    let strat = move || scase_strategy(th);
+    let exec = move |c: &SCase| run_sampled(c, prop);
+    let hash_case = |c: &SCase| {
+        let mut d = Case { kind: Kind::Lru, cfg: Cfg::simple(1), keys: KeyMode::Tracked, alphabet: 0, ops: vec![] };
+        d.cfg.sketch_seed = Some(fnv64(serde_json::to_string(c).unwrap_or_default().as_bytes()));
+        d
+    };
+    let (mut acc, found) = run_engine(&strat, &exec, &hash_case, &ctx.id, ctx.seed, 0x720 + prop as u64, ctx.workers, ctx.cases(q, t), &ctx.known);
+    let shrink = |c: &SCase, f: &dyn Fn(&SCase) -> bool| -> SCase {
+        let mut cur = c.clone();
+        let mut i = 0;
+        while i < cur.ops.len() {
+            let mut x = cur.clone();
+            x.ops.remove(i);
+            if f(&x) {
+                cur = x;
+            } else {
+                i += 1;
+            }
+        }
+        cur
+    };
+    acc.samples.clear();
+    finish(ctx, rule, acc, found, out, "sampled", &exec, &shrink);
+    push_component_samples(out, &scase_strategy(th), ctx.seed);
+}
+
+/// two generated component cases written out as evidence samples
+pub fn push_component_samples<T: serde::Serialize + std::fmt::Debug>(out: &mut Outcome, strat: &proptest::strategy::BoxedStrategy<T>, seed: u64) {
+    use proptest::strategy::{Strategy, ValueTree};
+    let mut runner = proptest::test_runner::TestRunner::new(proptest::test_runner::Config { rng_seed: rng_seed(seed, 0, 0x5a), failure_persistence: None, ..Default::default() });
+    let mut samples = out.coverage.get("samples").and_then(|s| s.as_array().cloned()).unwrap_or_default();
+    for _ in 0..2 {
+        if let Ok(t) = strat.new_tree(&mut runner) {
+            samples.push(serde_json::to_value(t.current()).unwrap_or(Value::Null));
+        }
+    }
+    samples.truncate(5);
+    out.coverage.insert("samples".into(), Value::Array(samples));
 }
